@@ -557,6 +557,15 @@ Proof.
 Qed.
 Print Assumptions C07_step_blocks_from_indices.
 
+(* Deconvolution1D's LinearModel as the check runs it (the matrix is COMPUTED by the model from the PSF and the boundary mode):
+   forward is the documented convolution for all five boundary modes, every PSF and size, and adjoint is its transpose *)
+Theorem C07_deconv1_model_runs : forall (bcm : bc) (P : list Qc) (n : nat) (x y : list Qc), length x = n -> length y = n ->
+  forward (mat_model n (deconv1_matrix false bcm P n) (GId n) (GId n)) (V1 x) = Some (V1 (conv1 bcm P x)) /\
+  exists ay, adjoint (mat_model n (deconv1_matrix false bcm P n) (GId n) (GId n)) (V1 y) = Some (V1 ay) /\
+             qdot (conv1 bcm P x) y = qdot x ay.
+Proof. exact deconv1_model_runs. Qed.
+Print Assumptions C07_deconv1_model_runs.
+
 Example C07_example_deepening2 :
   id_type (GImage 2 2 OF) = true /\ id_type (GId 3) = true /\
   concat [[0; 1]; [2]; [3; 4]]%nat = seq 0 (length (zv [5; 6; 7; 8; 9]%Z)) /\
